@@ -239,7 +239,7 @@ func (r *chunkReader) WriteTo(writer io.Writer) (n int64, err error) {
 		wg.Add(1)
 		i := int64(index) * int64(r.leafSize-r.truncation)
 		concurrencyControl <- struct{}{}
-		go func(writeAt int64, writer io.WriterAt, key Key, cafs storage.Store, wg *sync.WaitGroup) {
+		go func(index int, writeAt int64, writer io.WriterAt, key Key, cafs storage.Store, wg *sync.WaitGroup) {
 			defer func() {
 				<-concurrencyControl
 				wg.Done()
@@ -253,6 +253,30 @@ func (r *chunkReader) WriteTo(writer io.Writer) (n int64, err error) {
 				w:      writer,
 				offset: writeAt,
 			}
+			if r.withVerifyHash {
+				// verify the leaf before any of its bytes reaches the destination
+				data, e := io.ReadAll(rdr)
+				rdr.Close()
+				if e != nil {
+					errC <- e
+					return
+				}
+				offset, isLast := index+1, false
+				if index+1 == len(r.keys) && uint32(len(data)) != r.leafSize {
+					offset, isLast = index, true
+				}
+				if e = r.verifyHash(key, data, offset, isLast); e != nil {
+					errC <- e
+					return
+				}
+				written, e := w.Write(data) // io.WriteAt is expected to be thread safe.
+				if e != nil {
+					errC <- e
+					return
+				}
+				writtenC <- int64(written)
+				return
+			}
 			// TODO(fred): nice - io.CopyBuffer is probably better to get the copy working buffer aligned to leaf buffers
 			written, err := io.Copy(w, rdr) // io.WriteAt is expected to be thread safe.
 			if err != nil {
@@ -260,7 +284,7 @@ func (r *chunkReader) WriteTo(writer io.Writer) (n int64, err error) {
 				return
 			}
 			writtenC <- written
-		}(i, w, key, r.fs, &wg)
+		}(index, i, w, key, r.fs, &wg)
 	}
 	var count int
 	var written int64
